@@ -20,6 +20,11 @@
 //	empty <B>         Empty()
 //	new               NewBounds()
 //	nbp <x> <y>       NewBoundsPoint
+//	cc <line>         concurrent callers: <line> (any of the kinds above except hist/new) is answered alone (reference), then
+//	                  by 8 goroutines 3-8 times each, every call on its own freshly parsed operands, while 8 other goroutines
+//	                  hammer Bounds/Len/Points/Extend/Overlaps/Intersection/Copy/Empty on unrelated large geometries of their
+//	                  own. The first answer that differs from the reference is reported (else the reference) and judged like
+//	                  <line>, class prefix `conc-`: all these operations are pure functions of their operands.
 package main
 
 import (
@@ -28,6 +33,8 @@ import (
 	"math"
 	"os"
 	"strings"
+	"sync"
+	"sync/atomic"
 	"time"
 
 	"github.com/ctessum/geom"
@@ -402,6 +409,30 @@ func gen(seed uint64, tier string) {
 			fmt.Fprintln(out, "new")
 		}
 	}
+	// concurrent callers (see runCC): large geometries of every type, random ones, and the box operations
+	nCC := 6
+	if tier == "thorough" {
+		nCC = 40
+	}
+	for _, g := range corpus() {
+		n := 0
+		vproto.Safe(func() { n = g.Len() })
+		if n >= 256 {
+			fmt.Fprintf(out, "cc geom %s\n", vproto.GeomToks(g))
+		}
+	}
+	for k := 0; k < 4; k++ {
+		fmt.Fprintf(out, "cc geom %s\n", vproto.GeomToks(longRuns(k)))
+	}
+	for i := 0; i < nCC*6; i++ {
+		fmt.Fprintf(out, "cc geom %s\n", vproto.GeomToks(genGeom(r, 4, false)))
+	}
+	for i := 0; i < nCC; i++ {
+		a, b, c := genBox(r), genBox(r), genBox(r)
+		A, B, C := boxToks(a), boxToks(b), boxToks(c)
+		fmt.Fprintf(out, "cc ovl %s %s\ncc int %s %s\ncc ext %s %s\ncc ext3 %s %s %s\n", A, B, A, B, A, B, A, B, C)
+		fmt.Fprintf(out, "cc copy %s\ncc empty %s\ncc self %s\ncc self3 %s %s\n", A, B, C, C, A)
+	}
 	// box catalogue: every pair of 1-D intervals (lo,hi) over a small value set (includes inverted =
 	// empty intervals, touching, nested, identical, degenerate) on one axis, a random interval pair on the other
 	v := catVals()
@@ -754,6 +785,8 @@ func runLine(line string) (res string) {
 				parts = append(parts, safeBounds(g))
 			}
 			res = strings.Join(parts, " ")
+		case "cc":
+			res = runCC(strings.TrimSpace(strings.TrimPrefix(strings.TrimSpace(line), "cc")))
 		case "new":
 			poison(geom.NewBounds())
 			res = boxRes(geom.NewBounds())
@@ -888,6 +921,129 @@ func runLine(line string) (res string) {
 		res = "panic " + pan
 	}
 	return res
+}
+
+// ---------------------------------------------------------------- concurrent callers
+
+// hammerSet builds large geometries and boxes that belong to ONE hammer goroutine (coordinates shifted by id, so
+// they are unrelated to every case and to each other).
+func hammerSet(id int) ([]geom.Geom, []*geom.Bounds) {
+	off := float64(1000 * (id + 1))
+	ring := func(n int, d float64) geom.Path {
+		p := make(geom.Path, n)
+		for i := range p {
+			p[i] = P(off+d+float64(i%97), off-d+float64((i*7)%89))
+		}
+		return p
+	}
+	ml := make(geom.MultiLineString, 64)
+	mpg := make(geom.MultiPolygon, 32)
+	gc := make(geom.GeometryCollection, 0, 64)
+	for i := range ml {
+		ml[i] = geom.LineString(ring(64*(i%3), float64(i)))
+	}
+	for i := range mpg {
+		mpg[i] = geom.Polygon{ring(32*(i%2), float64(i)), {}, ring(32, float64(2*i))}
+	}
+	for i := 0; i < 16; i++ {
+		gc = append(gc, geom.MultiPoint(ring(16, float64(i))), geom.LineString{}, geom.GeometryCollection{geom.Polygon{{}, ring(8, 1)}, P(off, off)},
+			&geom.Bounds{Min: P(off, off), Max: P(off+float64(i), off+1)})
+	}
+	gs := []geom.Geom{geom.LineString(ring(4096, 0)), geom.Polygon{ring(2048, 1), {}, ring(2048, 2), ring(2048, 3)}, ml, mpg,
+		geom.MultiPoint(ring(4096, 5)), gc, P(off, -off)}
+	bs := []*geom.Bounds{{Min: P(off, off), Max: P(off+5, off+7)}, {Min: P(off+2, off-3), Max: P(off+9, off+1)}, geom.NewBounds(),
+		{Min: P(-off, -off), Max: P(off, off)}, {Min: P(off+2, off), Max: P(off+1, off+1)}}
+	return gs, bs
+}
+
+var ccSink uint64
+
+type hset struct {
+	gs []geom.Geom
+	bs []*geom.Bounds
+}
+
+var (
+	hsets    [8]*hset
+	hsetOnce sync.Once
+)
+
+func hammer(id int, stop *int32) {
+	// built once per process: the library only reads them, and only hammer `id` ever touches set `id`
+	hsetOnce.Do(func() {
+		for i := range hsets {
+			gs, bs := hammerSet(i)
+			hsets[i] = &hset{gs, bs}
+		}
+	})
+	gs, bs := hsets[id].gs, hsets[id].bs
+	var acc uint64
+	for it := 0; atomic.LoadInt32(stop) == 0; it++ {
+		vproto.Safe(func() {
+			g := gs[it%len(gs)]
+			b := g.Bounds()
+			acc += math.Float64bits(b.Min.X) ^ math.Float64bits(b.Max.Y)
+			n := g.Len()
+			f := g.Points()
+			for i := 0; i < n && i < 256; i++ {
+				acc += math.Float64bits(f().X)
+			}
+			a, c := bs[it%len(bs)], bs[(it/len(bs))%len(bs)]
+			j := a.Copy()
+			j.Extend(c)
+			j.Extend(b)
+			if a.Overlaps(c) || j.Empty() {
+				acc++
+			}
+			if r, ok := a.Intersection(c).(*geom.Bounds); ok && r != nil {
+				acc += math.Float64bits(r.Min.Y)
+			}
+			acc += math.Float64bits(geom.NewBoundsPoint(P(float64(it), 1)).Max.X) + math.Float64bits(geom.NewBounds().Min.X)
+		})
+	}
+	atomic.AddUint64(&ccSink, acc)
+}
+
+// runCC: reference answer alone, then the same line answered concurrently (each call parses its own operands)
+// under hammering; the first answer that differs from the reference, else the reference.
+func runCC(inner string) string {
+	if strings.HasPrefix(inner, "cc") || strings.HasPrefix(inner, "hist") || strings.HasPrefix(inner, "new") {
+		return "badline"
+	}
+	ref := runLine(inner)
+	const nW, nH = 8, 8
+	rounds := 8
+	if len(inner) > 20000 {
+		rounds = 3 // long lines: parsing and printing dominate, the calls overlap with the hammers anyway
+	}
+	var stop int32
+	var wgH, wgW sync.WaitGroup
+	for h := 0; h < nH; h++ {
+		wgH.Add(1)
+		go func(h int) { defer wgH.Done(); hammer(h, &stop) }(h)
+	}
+	results := make([]string, nW)
+	for w := 0; w < nW; w++ {
+		wgW.Add(1)
+		go func(w int) {
+			defer wgW.Done()
+			for k := 0; k < rounds; k++ {
+				if s := runLine(inner); s != ref {
+					results[w] = s
+					return
+				}
+			}
+		}(w)
+	}
+	wgW.Wait()
+	atomic.StoreInt32(&stop, 1)
+	wgH.Wait()
+	for _, s := range results {
+		if s != "" {
+			return s
+		}
+	}
+	return ref
 }
 
 func impl() {
